@@ -122,6 +122,25 @@ func gen(g *vh.Gen) {
 		}
 		g.Emit("lines", g.Pick("mem", "file"), strings.Join(h, ","))
 	}
+	// one transaction, several deliveries: 2-4 recipients (distinct mailboxes, the same one twice): EVERY copy
+	// must carry the client's bytes, through every read interface
+	for i := 0; i < g.N(60, 1500); i++ {
+		ls := genLines(g, 80)
+		h := make([]string, len(ls))
+		for j, l := range ls {
+			h[j] = vh.HS(l)
+		}
+		f := "-"
+		if len(h) > 0 {
+			f = strings.Join(h, ",")
+		}
+		n := 2 + g.Intn(3)
+		rc := make([]string, n)
+		for j := range rc {
+			rc[j] = g.Pick("box", "two", "three", "box")
+		}
+		g.Emit("multi", g.Pick("mem", "file"), strings.Join(rc, ","), f)
+	}
 	// raw wire: encodings a lenient client may produce (bare LF line ends, LF-only terminator,
 	// missing final newline before the terminator line is impossible on the wire; stray CRs)
 	for i := 0; i < g.N(150, 3000); i++ {
@@ -139,6 +158,10 @@ func gen(g *vh.Gen) {
 }
 
 func pop3Fetch(env *smtpd.Env, mailbox string) (retr []byte, listSize string, err error) {
+	return pop3FetchN(env, mailbox, 1)
+}
+
+func pop3FetchN(env *smtpd.Env, mailbox string, n int) (retr []byte, listSize string, err error) {
 	srv, err := pop3.NewServer(config.POP3{Domain: "inbucket", Timeout: 60 * time.Second}, env.Store)
 	if err != nil {
 		return nil, "", err
@@ -162,7 +185,7 @@ func pop3Fetch(env *smtpd.Env, mailbox string) (retr []byte, listSize string, er
 	}
 	defer c.Close()
 	go func() {
-		fmt.Fprintf(c, "USER %s\r\nPASS x\r\nLIST 1\r\nRETR 1\r\nQUIT\r\n", mailbox)
+		fmt.Fprintf(c, "USER %s\r\nPASS x\r\nLIST %d\r\nRETR %d\r\nQUIT\r\n", mailbox, n, n)
 	}()
 	c.SetReadDeadline(time.Now().Add(120 * time.Second))
 	out, _ := io.ReadAll(c)
@@ -232,6 +255,8 @@ func exec(kind string, in []string) []string {
 		wire = []byte(smtpd.StuffLines(ls))
 	case "raw":
 		wire = vh.U(in[1])
+	case "multi":
+		return execMulti(in)
 	default:
 		return []string{"UNKNOWN-KIND"}
 	}
@@ -284,6 +309,89 @@ func exec(kind string, in []string) []string {
 	norm := bytes.ReplaceAll(src, []byte("\r\n"), []byte("\n"))
 	return []string{replies, vh.H(smtpd.MaskTimestamp(src, "box")), strconv.FormatInt(m.Size(), 10),
 		same(restSrc, src), same(uiSrc, src), same(retr, norm), restSize, popSize, status}
+}
+
+// execMulti: multi <store> <rcpt mailboxes> <lines> => <replies> <copies> <status>, one token per stored copy in
+// the order mailbox-of-first-RCPT first, listing order inside a mailbox:
+// <mailbox>.<n>:<store source, timestamp masked>:<store size>:<rest>:<webui>:<pop3>:<rest list size>:<pop3 list size>
+func execMulti(in []string) []string {
+	var ls []string
+	if in[2] != "-" {
+		for _, h := range strings.Split(in[2], ",") {
+			ls = append(ls, vh.US(h))
+		}
+	}
+	wire := []byte(smtpd.StuffLines(ls))
+	setupWeb()
+	c := smtpd.Cfg{Naming: "local", MaxRcpt: 10, MaxBytes: 50000000, DA: true, DS: true, Store: in[0]}
+	env, err := smtpd.NewEnv(c, "", config.Storage{})
+	if err != nil {
+		return []string{"SETUPERR", vh.HS(err.Error())}
+	}
+	defer env.Close()
+	cur.Manager = env.Manager
+	stream := []byte("HELO client.example\r\nMAIL FROM:<sender@x.org>\r\n")
+	var order []string
+	seen := map[string]bool{}
+	for _, mb := range strings.Split(in[1], ",") {
+		stream = append(stream, []byte("RCPT TO:<"+mb+"@y.org>\r\n")...)
+		if !seen[mb] {
+			seen[mb] = true
+			order = append(order, mb)
+		}
+	}
+	stream = append(stream, []byte("DATA\r\n")...)
+	stream = append(stream, wire...)
+	stream = append(stream, []byte("QUIT\r\n")...)
+	out, err := env.Session(stream)
+	status := "ok"
+	if err != nil {
+		status = "err:" + vh.HS(err.Error())
+	}
+	hdr := "nocall"
+	if len(env.Manager.Calls) > 0 {
+		hdr = vh.B(env.Manager.Calls[0].HdrOK)
+	}
+	var copies []string
+	for _, mb := range order {
+		ms, err := env.Store.GetMessages(mb)
+		if err != nil {
+			status = "err:list"
+			continue
+		}
+		_, listJSON := httpGet("http://localhost/api/v1/mailbox/" + mb)
+		var hdrs []map[string]interface{}
+		json.Unmarshal(listJSON, &hdrs)
+		for i, m := range ms {
+			r, err := m.Source()
+			if err != nil {
+				copies = append(copies, fmt.Sprintf("%s.%d:NOSRC", mb, i+1))
+				continue
+			}
+			src, _ := io.ReadAll(r)
+			r.Close()
+			_, restSrc := httpGet("http://localhost/api/v1/mailbox/" + mb + "/" + m.ID() + "/source")
+			_, uiSrc := httpGet("http://localhost/serve/mailbox/" + mb + "/" + m.ID() + "/source")
+			restSize := "X"
+			if i < len(hdrs) {
+				if f, ok := hdrs[i]["size"].(float64); ok {
+					restSize = strconv.FormatInt(int64(f), 10)
+				}
+			}
+			retr, popSize, perr := pop3FetchN(env, mb, i+1)
+			if perr != nil {
+				status = "pop3:" + vh.HS(perr.Error())
+			}
+			norm := bytes.ReplaceAll(src, []byte("\r\n"), []byte("\n"))
+			copies = append(copies, strings.Join([]string{fmt.Sprintf("%s.%d", mb, i+1), vh.H(smtpd.MaskTimestamp(src, mb)),
+				strconv.FormatInt(m.Size(), 10), same(restSrc, src), same(uiSrc, src), same(retr, norm), restSize, popSize}, ":"))
+		}
+	}
+	cs := "-"
+	if len(copies) > 0 {
+		cs = strings.Join(copies, ",")
+	}
+	return []string{strings.Join(smtpd.ReplyTokens(out), ","), cs, hdr + ":" + status}
 }
 
 func main() { vh.Main(gen, exec) }
